@@ -108,6 +108,23 @@ LAYOUTS = [
 CASED = ["main", "Shapes", "shapes", "SHAPES", "sHapes", "shapeS"]
 
 
+# files reached through symbolic links: one file has several spellings that no textual normalisation identifies; a file is
+# *one* file however it is reached (each file once, cycles diagnosed). The model's file system has no links, so this stream
+# is judged by the graph-level specification only.
+def link_layouts(parity):
+    return [
+        {"name": f"dir-link/{parity}", "path": lambda i: f"/w/real/f{i}.djinni", "inc": [],
+         "lit": lambda a, b: f"../link/f{b}.djinni" if (a + b + parity) % 2 else f"f{b}.djinni",
+         "extra": lambda n: {"/w/link": {"symlink": "real"}}},
+        {"name": f"file-link/{parity}", "path": lambda i: f"/w/f{i}.djinni", "inc": [],
+         "lit": lambda a, b: f"g{b}.djinni" if (a + b + parity) % 2 else f"f{b}.djinni",
+         "extra": lambda n: {f"/w/g{i}.djinni": {"symlink": f"f{i}.djinni"} for i in range(n)}},
+        {"name": f"link-chain/{parity}", "path": lambda i: f"/w/d/f{i}.djinni", "inc": ["inc"],
+         "lit": lambda a, b: f"h{b}.djinni" if (a + b + parity) % 2 else f"../d/f{b}.djinni",
+         "extra": lambda n: {**{f"/w/inc/h{i}.djinni": {"symlink": f"../alias/f{i}.djinni"} for i in range(n)}, "/w/alias": {"symlink": "d"}}},
+    ]
+
+
 def build(n, es, layout, missing=None):
     files = {}
     for i in range(n):
@@ -115,6 +132,8 @@ def build(n, es, layout, missing=None):
         if missing is not None and missing[0] == i:
             heads.insert(missing[1] if missing[1] <= len(heads) else len(heads), '@import "not_there.djinni"')
         body = f"t{i} = record {{ }}\nu{i} = enum {{ k; }}"
+        # every file also declares `item` in a namespace of its own: equal simple names in different files are different types
+        body += f"\nnamespace n{i} {{ item = record {{ }} }}"
         # a reference to every directly imported file's type: imports really make declarations available
         refs = " ".join(f"r{b}: t{b};" for a, b in es if a == i and b != i)
         if refs:
@@ -126,7 +145,7 @@ def build(n, es, layout, missing=None):
 def expected_decls(n, es, reachable):
     out = []
     for i in sorted(reachable):
-        out += [f"t{i}", f"u{i}"]
+        out += [f"t{i}", f"u{i}", f"n{i}.item"]
         if any(a == i and b != i for a, b in es):
             out.append(f"h{i}")
     return sorted(out)
@@ -192,6 +211,25 @@ def run(ctx):
     # a directory with the imported name shadows nothing (directories are skipped)
     todo.append({"files": {"/w/main/f0.djinni": '@import "x"\nt0 = record { }', "/w/x/inner.djinni": "z = enum { k; }", "/w/main/x": "y = enum { k; }"},
                  "root": "/w/main/f0.djinni", "include_dirs": [], "meta": {"variant": "directory-skipped"}})
+
+    linked = []
+    for n in (1, 2, 3):
+        for es in graphs(n):
+            for parity in ((0, 1) if (n < 3 or not ctx.quick) else (len(es) % 2,)):
+                lays = link_layouts(parity)
+                for lay in (lays if (n < 3 or not ctx.quick) else [lays[(len(es) // 2) % len(lays)]]):
+                    files = build(n, es, lay)
+                    files.update(lay["extra"](n))
+                    linked.append({"files": files, "root": lay["path"](0), "include_dirs": lay["inc"],
+                                   "meta": {"n": n, "edges": es, "layout": lay["name"], "variant": "graph", "missing": None}})
+    for t, (impl, _req) in zip(linked, front.run_many(ctx.tmp, linked, per_input_timeout=10)):
+        meta = t["meta"]
+        ctx.count(key=json.dumps(meta, sort_keys=True), nontrivial=bool(meta.get("edges")), sample={"files": t["files"], "impl": impl["kind"]})
+        ctx.stat("impl_" + impl["kind"])
+        ctx.stat("variant_linked")
+        for f in spec(meta, impl):
+            ctx.report("imports:" + f["key"], f["what"] + " (files reached through symbolic links)",
+                       {"input": {"files": t["files"], "root": t["root"], "include_dirs": t["include_dirs"]}, "meta": meta, "impl": strip(impl), "failure": f})
 
     results = front.run_many(ctx.tmp, todo, per_input_timeout=10)
     answers = ctx.driver.batch([{**req, "op": "c04.bindings"} for _, req in results])
